@@ -92,6 +92,17 @@ func gen(r *rand.Rand) []byte {
 			b = append(b, codes[r.Intn(len(codes))]...)
 		case x == 6:
 			b = append(b, '\\')
+			// any byte values in the two positions after the backslash (control
+			// bytes, bytes that differ from a hex digit in one bit, high bytes)
+			switch r.Intn(4) {
+			case 0:
+				b = append(b, "2345"[r.Intn(4)], byte(r.Intn(256)))
+			case 1:
+				b = append(b, byte(r.Intn(256)), byte(r.Intn(256)))
+			case 2:
+				d := "0267fFaAcCeE"[r.Intn(12)]
+				b = append(b, "2345"[r.Intn(4)]^byte(r.Intn(2)<<uint(r.Intn(8))), d^byte(1<<uint(r.Intn(8))))
+			}
 		case x == 7:
 			b = append(b, []byte{0xff, 0xc3, 0x80, 0xe2, 0x82}[r.Intn(5)])
 		case x == 8:
@@ -225,9 +236,45 @@ func cause(in []byte, esc bool) string {
 	return "other"
 }
 
+// 256 case indexes enumerate every two-byte continuation of a
+// backslash (case i: first byte i, every second byte), bare and embedded in
+// text, through the same interfaces as the random inputs; the remaining cases
+// are PRNG inputs.
+const exhaustiveCases = 256
+
+func cases(tier string) int {
+	if tier == "thorough" {
+		return 15000000
+	}
+	return 60000
+}
+
 func run(c *core.Case) {
+	// the enumerating cases are spread evenly over the index range (and so over
+	// the worker processes)
+	stride := cases(c.Tier) / exhaustiveCases
+	if c.Index >= 0 && c.Index%stride == 0 && c.Index/stride < exhaustiveCases {
+		b1 := byte(c.Index / stride)
+		for b2 := 0; b2 < 256; b2++ {
+			c.Count("exhaustive_two_byte_continuations", 1)
+			check(c, []byte{'\\', b1, byte(b2)}, true)
+			check(c, []byte{'x', '\\', b1, byte(b2), 'y'}, true)
+			if b2%16 == int(b1)%16 {
+				// a sample also behind other sequences and at the end of longer text
+				check(c, []byte{'\\', '2', '0', '\\', b1, byte(b2), '\\'}, true)
+				check(c, append(bytes.Repeat([]byte{'a'}, 126), '\\', b1, byte(b2), '\\', '5', 'c'), true)
+			}
+		}
+		return
+	}
+	check(c, gen(c.Rand), false)
+}
+
+// check puts one input through every interface in both directions.  In
+// exhaustive mode the streaming interface is additionally driven with every
+// single cut position.
+func check(c *core.Case, in []byte, exhaustive bool) {
 	r := c.Rand
-	in := gen(r)
 	for _, dir := range []string{"esc", "unesc"} {
 		esc := dir == "esc"
 		t := jid.Unescape
@@ -242,7 +289,11 @@ func run(c *core.Case) {
 		c.Count("inputs", 1)
 		hasSpecial := !bytes.Equal(ref, in)
 		if hasSpecial {
-			c.Sig("%s:%x", dir, core.SubSeed(0, string(in), 0, ""))
+			if exhaustive {
+				c.Sig("%s:exhaustive:%02x", dir, in[bytes.IndexByte(in, '\\')+1])
+			} else {
+				c.Sig("%s:%x", dir, core.SubSeed(0, string(in), 0, ""))
+			}
 			c.Count("inputs_changed_by_transform", 1)
 		}
 		if i := bytes.IndexAny(in, escapable); i > 2 {
@@ -325,6 +376,12 @@ func run(c *core.Case) {
 		if len(in) > 1000 {
 			nDrives = 2
 		}
+		if exhaustive {
+			nDrives = 2 + len(in) - 1
+			if len(in) > 16 {
+				nDrives = 4
+			}
+		}
 		for k := 0; k < nDrives; k++ {
 			var cuts []int
 			for j, m := 0, r.Intn(4); j < m && len(in) > 0; j++ {
@@ -332,14 +389,20 @@ func run(c *core.Case) {
 			}
 			sortInts(cuts)
 			var dcap int
-			switch r.Intn(5) {
-			case 0:
+			if exhaustive && k >= 2 && len(in) <= 16 {
+				// every single cut position, roomy destination
+				cuts = []int{k - 1}
+			}
+			switch x := r.Intn(5); {
+			case exhaustive && k >= 2 && len(in) <= 16:
+				dcap = len(ref) + 3 + r.Intn(4)
+			case x == 0:
 				dcap = 1 + r.Intn(3)
-			case 1:
+			case x == 1:
 				dcap = 3 + r.Intn(6)
-			case 2:
+			case x == 2:
 				dcap = len(ref) + r.Intn(9)
-			case 3:
+			case x == 3:
 				dcap = max(1, len(ref)-r.Intn(4))
 			default:
 				dcap = 1 + r.Intn(len(in)+8)
@@ -441,18 +504,13 @@ func Prop() *core.Prop {
 	return &core.Prop{
 		ID:    "C16",
 		Level: core.Exploration,
-		Rule: "inputs are PRNG byte strings over escapable characters, backslash/hex sequences (valid, near-valid, both hex cases), invalid UTF-8 and filler, lengths 0-4120 with special material forced at offsets 2,3,127,128,4095,4096; each input goes through String, Bytes, Span (atEOF both ways), Transform under 2-6 (source split, destination capacity) pairs, transform.NewReader and NewWriter, in both directions. A case is non-trivial when the transform changes the input; distinct = distinct (direction, input) among those.",
+		Rule:  "256 cases spread evenly over the index range enumerate all 65536 two-byte continuations of a backslash (bare, embedded in text, and a sample behind other sequences / across offset 128) with every single cut position; the other inputs are PRNG byte strings over escapable characters, backslash/hex sequences (valid, near-valid, both hex cases), invalid UTF-8 and filler, lengths 0-4120 with special material forced at offsets 2,3,127,128,4095,4096; each input goes through String, Bytes, Span (atEOF both ways), Transform under 2-6 (source split, destination capacity) pairs, transform.NewReader and NewWriter, in both directions. A case is non-trivial when the transform changes the input; distinct = distinct (direction, input) among those.",
 		Assumptions: []string{
 			"the 15-line reference implementation of XEP-0106 in props/c16 is correct",
 			"a destination smaller than one output unit (3 bytes for Escape) may legitimately never progress; such drives are counted, not judged",
 		},
-		Cases: func(tier string) int {
-			if tier == "thorough" {
-				return 15000000
-			}
-			return 60000
-		},
+		Cases:   cases,
 		Run:     run,
-		Require: []string{"inputs_changed_by_transform", "special_beyond_offset_2", "longer_than_128", "capacity_below_3", "split_sources", "reader_runs", "writer_runs", "roundtrips"},
+		Require: []string{"inputs_changed_by_transform", "special_beyond_offset_2", "longer_than_128", "capacity_below_3", "split_sources", "reader_runs", "writer_runs", "roundtrips", "exhaustive_two_byte_continuations"},
 	}
 }
